@@ -15,6 +15,7 @@ import io
 
 import numpy as np
 
+from . import argforms as af
 from . import qc
 from .qc import torch
 
@@ -34,7 +35,10 @@ RULE = ("case = session on one state object (kind [positive: no bases; complex/d
         "object again / the same object overwritten in place); covers N < B, N = mB, N = mB + r; thorough enumerates single calls "
         "N <= 12 x B <= 13 x neg in {None, B, other}; plus a malformed stream (B = 0, no reference-basis row, bases of the wrong "
         "length, also as the second call of a session: outside the quantifier, informational counters only) and direct `_shuffle_data` calls "
-        "(verdict only for num_batches = ceil(N/B), the only value fit passes; other values informational); non-trivial "
+        "(verdict only for num_batches = ceil(N/B), the only value fit passes; other values informational); ARGUMENT FORMS (stream `aseed` of every "
+        "generated session / call / direct call): epochs, pos_batch_size, neg_batch_size, k, starting_epoch and the state's sizes as Python int / "
+        "numpy.int64 / int32 / intp / uint8 / 0-d integer numpy array / 0-d integer torch tensor, progbar / time / gpu as bool / int / numpy.bool_ / "
+        "numpy comparison result / 0-d numpy array / 0-d torch tensor, by keyword and in the positional prefix; non-trivial "
         "iff N >= 2 and a recorded permutation is not the identity; distinct by hash of the case")
 EXTRA_TRUSTED = [
     "C07: torch.randperm(N) returns a permutation of 0..N-1 and torch.randint(high, size) returns `size` values below `high` "
@@ -52,20 +56,24 @@ def user_unitary(theta, phi):
     return torch.tensor([[[c, math.cos(phi) * s_], [math.cos(phi) * s_, -c]], [[0.0, math.sin(phi) * s_], [-math.sin(phi) * s_, 0.0]]], dtype=torch.double)
 
 
-def make_state(kind, n, rng, letters=None):
+def make_state(kind, n, rng, letters=None, aseed=None):
     """`letters` = [{"name", "theta", "phi"}]: basis letters the user registers next to X/Y/Z through the public `unitary_dict=` argument
-    (`unitaries.create_dict(name=matrix)`); measurement bases of the training data may then use them"""
+    (`unitaries.create_dict(name=matrix)`); measurement bases of the training data may then use them.
+    `aseed`: argument forms of the constructors' sizes and of `gpu` (harness/argforms.py)"""
     h = rng.choice([1, 2])
+    fm = af.Forms(aseed)
+    nv, nh, gpu = fm.i("num_visible", n), fm.i("num_hidden", h), fm.gpu()
     if kind == "pos":
-        return qc.make_positive(n, h, qc.rand_rbm_params(rng, n, h, 0.5))
+        return qc.make_positive(nv, nh, qc.rand_rbm_params(rng, n, h, 0.5), gpu=gpu)
     ud = None
     if letters:
         from qucumber.utils import unitaries
 
         ud = unitaries.create_dict(**{L["name"]: user_unitary(L["theta"], L["phi"]) for L in letters})
     if kind == "cplx":
-        return qc.make_complex(n, h, qc.rand_rbm_params(rng, n, h, 0.5), qc.rand_rbm_params(rng, n, h, 0.5), unitary_dict=ud)
-    return qc.make_density(n, h, 1, qc.rand_prbm_params(rng, n, h, 1, 0.5), qc.rand_prbm_params(rng, n, h, 1, 0.5), unitary_dict=ud)
+        return qc.make_complex(nv, nh, qc.rand_rbm_params(rng, n, h, 0.5), qc.rand_rbm_params(rng, n, h, 0.5), unitary_dict=ud, gpu=gpu)
+    return qc.make_density(nv, nh, fm.i("num_aux", 1), qc.rand_prbm_params(rng, n, h, 1, 0.5), qc.rand_prbm_params(rng, n, h, 1, 0.5), unitary_dict=ud,
+                           gpu=gpu)
 
 
 def container(data, form):
@@ -289,12 +297,16 @@ DOC_ORDER = {
 REFS = {"data": 10, "lr": 11, "input_bases": 12, "callbacks": 13, "optimizer": 14}
 
 
-def call_arguments(kind, run, data_obj, bases_obj, callbacks):
+def call_arguments(kind, run, data_obj, bases_obj, callbacks, ctx=None):
     """(positional arguments, keyword arguments, the same call on the wire for the model's binder `c07.bind`).
     `run["npos"]` = number of leading documented parameters given POSITIONALLY (1 = only `data`, the usual keyword call); the remaining
-    explicitly chosen ones are keywords. A `defaults` run passes nothing but data, callbacks and (with bases) input_bases."""
+    explicitly chosen ones are keywords. A `defaults` run passes nothing but data, callbacks and (with bases) input_bases.
+    `run["aseed"]` (round 5, argument forms): the integer options are handed over as the integer OBJECTS callers pass (numpy / 0-d array / 0-d
+    tensor), progbar and time as truthy / falsy objects; the wire carries their VALUES."""
     has_bases = kind != "pos"
     start = run.get("start", 1)
+    fm = af.Forms(run.get("aseed"), ctx)
+    objs = {}
     if run.get("defaults"):
         named = {"data": data_obj, "callbacks": callbacks}
         if has_bases:
@@ -308,20 +320,27 @@ def call_arguments(kind, run, data_obj, bases_obj, callbacks):
         if has_bases:
             named["input_bases"] = bases_obj
             explicit.add("input_bases")
+        objs = {nm: fm.i(nm, named[nm], allowed) for nm, allowed in af.FIT_INT.items()}
+        if fm.rng is not None:   # a progress bar goes to stderr, the Timer's report to stdout: neither is constrained
+            for nm in ("progbar", "time"):
+                named[nm] = fm.chance(0.2)
+                objs[nm] = fm.f(nm, named[nm])
+            explicit.add("time")
     order = DOC_ORDER[has_bases]
     npos = max(1, min(run.get("npos", 1), len(order)))
     if run.get("defaults"):
         npos = 1
     pos_names = order[:npos]
-    pos_args = [named[nm] for nm in pos_names]
-    kw_args = {nm: named[nm] for nm in order[npos:] if nm in explicit}
+    obj = lambda nm: objs.get(nm, named[nm])  # noqa: E731
+    pos_args = [obj(nm) for nm in pos_names]
+    kw_args = {nm: obj(nm) for nm in order[npos:] if nm in explicit}
 
     def enc(nm, v):
         if nm in REFS:
             return {"ref": REFS[nm]}
         return v  # None / bool / int
 
-    wire = {"has_bases": has_bases, "pos": [enc(nm, named[nm]) for nm in pos_names], "kw": [[nm, enc(nm, v)] for nm, v in kw_args.items()]}
+    wire = {"has_bases": has_bases, "pos": [enc(nm, named[nm]) for nm in pos_names], "kw": [[nm, enc(nm, named[nm])] for nm in kw_args]}
     return pos_args, kw_args, wire
 
 
@@ -355,7 +374,7 @@ def one_fit(ctx, case):
     kind, n, runs = case["kind"], case["n"], case["runs"]
     rng = random.Random(case["dseed"])
     letters = case.get("letters") or []
-    st = make_state(kind, n, rng, letters)
+    st = make_state(kind, n, rng, letters, case.get("aseed"))
     torch.manual_seed(case["dseed"])
     desc = {k: case[k] for k in case if k != "dseed"}
     state = {"data_obj": None, "bases_obj": None, "data": None, "bases": None, "nontriv": False, "perm0": None,
@@ -421,9 +440,10 @@ def one_call(ctx, case, st, kind, run, r_idx, state):
 
     marks = LambdaCallback(on_epoch_start=lambda s_, e_: rec.log.append(("epoch", int(e_))))
     rec.install()
-    pos_args, kw_args, wire = call_arguments(kind, run, data_obj, bases_obj, [marks])
+    pos_args, kw_args, wire = call_arguments(kind, run, data_obj, bases_obj, [marks], ctx)
     try:
-        with contextlib.redirect_stderr(io.StringIO()):  # a progress bar (should one appear) must not garble the verdict lines
+        # a progress bar / the Timer's report (should one appear) must not garble the verdict lines
+        with contextlib.redirect_stderr(io.StringIO()), contextlib.redirect_stdout(io.StringIO()):
             st.fit(*pos_args, **kw_args)
     except Exception as e:
         err = type(e).__name__
@@ -595,7 +615,8 @@ def one_direct(ctx, case):
     kind, n, N, B, negB, nb = case["kind"], case["n"], case["N"], case["B"], case["negB"], case["nb"]
     data, bases = case["data"], case["bases"]
     rng = random.Random(case["dseed"])
-    st = make_state(kind, n, rng)
+    st = make_state(kind, n, rng, None, case.get("aseed"))
+    fm = af.Forms(None if case.get("aseed") is None else case["aseed"] + 1, ctx, "direct ")   # the batch sizes as fit hands them on: the caller's objects
     torch.manual_seed(case["dseed"])
     train = torch.tensor(data, dtype=torch.double)
     bases_obj = np.array(bases) if bases is not None else None
@@ -607,7 +628,7 @@ def one_direct(ctx, case):
     rec.install()
     err, out = None, None
     try:
-        out = list(st._shuffle_data(B, negB, nb, train, bases_obj, z))
+        out = list(st._shuffle_data(fm.i("pos_batch_size", B, af.PY_INT), fm.i("neg_batch_size", negB, af.PY_INT), nb, train, bases_obj, z))
     except Exception as e:
         err = type(e).__name__
     finally:
@@ -718,7 +739,7 @@ def gen_run(rng, kind, n, N, B, negmode, letters=None, npos=None):
         neg = 0  # Python falsy: also selects the default
     data, bases = gen_data(rng, kind, n, N, letters=letters)
     run = {"N": N, "B": B, "neg": neg, "epochs": rng.choice([1, 2, 2, 3]), "form": rng.choice(FORMS), "data": data, "bases": bases,
-           "bases_form": rng.choice(BASES_FORMS)}
+           "bases_form": rng.choice(BASES_FORMS), "aseed": af.new_seed(rng)}
     # call form: how many leading documented parameters are given positionally (1 = data only); with a positional call the integer
     # arguments are made pairwise different where possible (so that no two documented positions can be exchanged unnoticed)
     nparams = len(DOC_ORDER[kind != "pos"])
@@ -775,7 +796,7 @@ def gen_cases(ctx, thorough):
                 n = rng.choice([2, 2, 3]) if kind != "dens" else 2
                 letters = gen_letters(rng) if kind != "pos" and rng.random() < 0.4 else None
                 yield ("fit", {"kind": kind, "n": n, "runs": [gen_run(rng, kind, n, N, B, negmode, letters=letters)], "dseed": rng.randrange(1 << 30),
-                               "letters": letters})
+                               "letters": letters, "aseed": af.new_seed(rng)})
     # every positional call form: for each state type, the first j documented parameters given positionally, j = 2 .. all of them
     for kind in ("pos", "cplx", "dens"):
         for j in range(2, len(DOC_ORDER[kind != "pos"]) + 1):
@@ -784,7 +805,7 @@ def gen_cases(ctx, thorough):
                 B = rng.randint(1, N + 1)
                 letters = gen_letters(rng) if kind != "pos" and rng.random() < 0.3 else None
                 yield ("fit", {"kind": kind, "n": 2, "runs": [gen_run(rng, kind, 2, N, B, rng.choice(["B", "other", "other", "None"]), letters=letters, npos=j)],
-                               "dseed": rng.randrange(1 << 30), "letters": letters})
+                               "dseed": rng.randrange(1 << 30), "letters": letters, "aseed": af.new_seed(rng)})
     # the documented default call form on a large data set: fit(data) -> pos_batch_size = 100, neg_batch_size = None, 100 epochs (float ceil(N / 100));
     # N = 1000 (N = mB) and, thorough, N = 1037 (N = mB + r) and a complex state with bases
     big = [("pos", 1000)] + ([("pos", 1037), ("cplx", 250)] if thorough else [])
@@ -799,7 +820,8 @@ def gen_cases(ctx, thorough):
         kind = ["cplx", "dens", "pos"][i % 3] if i % 4 else rng.choice(["cplx", "dens"])
         n = rng.choice([2, 3, 3]) if kind != "dens" else 2
         letters = gen_letters(rng) if kind != "pos" and rng.random() < 0.4 else None
-        yield ("fit", {"kind": kind, "n": n, "runs": gen_session(rng, kind, n, letters), "dseed": rng.randrange(1 << 30), "letters": letters})
+        yield ("fit", {"kind": kind, "n": n, "runs": gen_session(rng, kind, n, letters), "dseed": rng.randrange(1 << 30), "letters": letters,
+                       "aseed": af.new_seed(rng)})
     # direct calls with arbitrary num_batches (zip truncation) + extract_refbasis
     for _ in range(120 if thorough else 30):
         kind = rng.choice(["pos", "cplx", "dens"])
@@ -808,7 +830,7 @@ def gen_cases(ctx, thorough):
         negB = rng.choice([B, B, other_neg(rng, B)])
         nb = max(0, -(-N // B) + rng.choice([-2, -1, 0, 0, 1, 2]))
         yield ("direct", {"kind": kind, "n": n, "N": N, "B": B, "negB": negB, "nb": nb, "data": data, "bases": bases,
-                          "dseed": rng.randrange(1 << 30)})
+                          "dseed": rng.randrange(1 << 30), "aseed": af.new_seed(rng)})
     # malformed stream (alone, and as the second call after a well-formed one on the same object)
     for _ in range(12 if thorough else 4):
         kind = rng.choice(["pos", "cplx", "dens"])
